@@ -3,6 +3,10 @@ package drivers
 import (
 	"fmt"
 	"math/rand"
+	"os"
+	"path/filepath"
+
+	"github.com/scottyw/tetromino/gameboy/memory"
 
 	"verif/harness/machine"
 	"verif/harness/trace"
@@ -154,6 +158,69 @@ func lenExact(rng *rand.Rand, idx int) []lenOp {
 	return ops
 }
 
+// lenROM: a sound test ROM on the full machine. The harness first defines the length counters and cycles the power
+// (as every scenario of this family does), then the ROM runs; every CPU write to FF10-FF26 is logged with NR52 read
+// right after it (before the hardware part of that cycle), and NR52 is read after every cycle, run-length compressed.
+func lenROM(id, rom string, cycles int) *trace.Scenario {
+	sc := &trace.Scenario{ID: id, Reset: []any{"lenrom", 0, rom, cycles}}
+	perr := machine.Try(func() {
+		img, err := os.ReadFile(rom)
+		if err != nil {
+			panic(err)
+		}
+		m := machine.New(img, machine.Options{})
+		rng := rand.New(rand.NewSource(1))
+		for _, o := range lenPreamble(rng) {
+			m.M.Write(uint16(o.addr), uint8(o.v))
+			sc.Ev = append(sc.Ev, []any{1, o.addr, o.v, int(m.M.VerifPeek(0xff26))})
+		}
+		type wr struct{ a, v int }
+		var pending []wr
+		on := false
+		memory.VerifBusObserver = func(mm *memory.Mapper, write bool, addr uint16, value uint8) {
+			if on && mm == m.M && write && addr >= 0xff10 && addr <= 0xff26 {
+				pending = append(pending, wr{int(addr), int(value)})
+			}
+		}
+		defer func() { memory.VerifBusObserver = nil }()
+		run := 0
+		prev := int(m.M.VerifPeek(0xff26))
+		flush := func() {
+			if run > 0 {
+				sc.Ev = append(sc.Ev, []any{0, run, prev})
+				run = 0
+			}
+		}
+		for i := 0; i < cycles; i++ {
+			pending = pending[:0]
+			on = true
+			m.CPU.ExecuteMachineCycle()
+			on = false
+			if len(pending) > 0 {
+				flush()
+				for _, p := range pending {
+					// at most one write per machine cycle: NR52 right after it
+					prev = int(m.M.VerifPeek(0xff26))
+					sc.Ev = append(sc.Ev, []any{1, p.a, p.v, prev})
+				}
+			}
+			m.Hardware()
+			run++
+			cur := int(m.M.VerifPeek(0xff26))
+			if cur != prev {
+				sc.Ev = append(sc.Ev, []any{0, run, cur})
+				run = 0
+				prev = cur
+			}
+		}
+		flush()
+	})
+	if perr != "" {
+		sc.Ev = append(sc.Ev, []any{"panic", perr})
+	}
+	return sc
+}
+
 func apuGenOther(c *Ctx, w *trace.Writer) {
 	if c.Want("lencal") {
 		// calibration of the frame sequencer phase: length 1, enable, trigger, tick until the status drops
@@ -178,6 +245,21 @@ func apuGenOther(c *Ctx, w *trace.Writer) {
 			}
 		}
 	}
+	if c.Want("len") {
+		// the blargg dmg_sound ROMs as program traces
+		base := filepath.Join(repoDir(), "gameboy", "testdata", "blargg", "dmg_sound", "rom_singles")
+		roms := []string{"02-len ctr.gb", "03-trigger.gb", "04-sweep.gb", "05-sweep details.gb", "07-len sweep period sync.gb", "08-len ctr during power.gb", "01-registers.gb", "11-regs after power.gb"}
+		nr, cyc := 2, 1500000
+		if c.Thorough() {
+			nr, cyc = len(roms), 12000000
+		}
+		for i := 0; i < nr; i++ {
+			p := filepath.Join(base, roms[(i+int(c.Seed))%len(roms)])
+			if _, err := os.Stat(p); err == nil {
+				w.Put(lenROM(fmt.Sprintf("apu-lenrom-%d", i), p, cyc))
+			}
+		}
+	}
 	apuGenSamples(c, w)
 }
 
@@ -190,6 +272,8 @@ func apuRerunOther(c *Ctx, w *trace.Writer, s *trace.Scenario) {
 		w.Put(lenRun(s.ID, fam, seed, lenSchedule(rand.New(rand.NewSource(seed)), 40)))
 	case "lenexact":
 		w.Put(lenRun(s.ID, fam, seed, lenExact(rand.New(rand.NewSource(seed/1000)), int(seed%1000))))
+	case "lenrom":
+		w.Put(lenROM(s.ID, trace.Str(r[2]), trace.Int(r[3])))
 	case "lencal":
 		rng := c.Rand(1900)
 		ops := lenPreamble(rng)
